@@ -611,7 +611,42 @@ def _driver(ck, reqs):
             time.sleep(5)
 
 
-def run_batch(ck, batch):
+def judge_legal(ck, files, origin, hy, st, flags=(), report=False):
+    """`Legal` (the order-free rule set of Model/FeCompile.lean, evaluated by the driver) against the REAL compiler's
+    accept / refuse.  real accepts => Legal; real refuses with the message of a modelled site => not Legal.  With
+    `report` (property C01) a disagreement is the property failing on the real code: failing input."""
+    if 'legal' not in hy or st[0] == 'crash':
+        return
+    legal = hy['legal']
+    ck.hist('comp.hyps.legal', str(legal))
+    ck.hist('comp.hyps.ns_lexical', str(hy.get('ns_lexical')))
+    case = {'suite': 'comp.legal', 'origin': origin, 'specs': _files(files)}
+    if st[0] == 'ok':
+        if legal:
+            ck.agree('comp.legal')
+        else:
+            ck.disagree('comp.legal', case, 'accepted', {'legal': False, 'why': hy.get('why')})
+            if report:
+                ck.failing_input('C01: the compiler accepts a set of specs that violates a rule (%s)' % hy.get('why'),
+                                 {'kind': 'illegal-accepted', 'rule': str(hy.get('why'))}, case)
+        return
+    rk = kind_of_message(st[1])
+    ambiguous = set(AMBIGUOUS)
+    if 'annot-type-params' in flags:
+        ambiguous |= RESOLVE_KINDS
+    if rk is None or rk in ambiguous:
+        ck.hist('comp.legal.not_judged', 'unmodelled-rule' if rk is None else 'ambiguous-message')
+        return
+    if not legal:
+        ck.agree('comp.legal')
+    else:
+        ck.disagree('comp.legal', case, rk, {'legal': True})
+        if report:
+            ck.failing_input('C01: the compiler refuses a set of specs that violates no rule (%s)' % rk,
+                             {'kind': 'legal-refused', 'rule': rk}, case)
+
+
+def run_batch(ck, batch, legal_report=False):
     """batch: [(files, origin)] -> [real status or None]"""
     prepared = []
     for files, origin in batch:
@@ -626,16 +661,29 @@ def run_batch(ck, batch):
     reqs = [r for _f, _o, _a, r, _fl in prepared if r is not None]
     replies = iter(_driver(ck, reqs))
     # the hypothesis of the theorems (`compile fs = .ok api`) on every case: how often they speak
-    for hy in _driver(ck, [dict(r, op='comp.hyps') for r in reqs]):
+    hyps = _driver(ck, [dict(r, op='comp.hyps') for r in reqs])
+    for hy in hyps:
         ck.hist('comp.hyps.compile_ok', str(hy.get('compile_ok')))
         if hy.get('compile_ok') is False and hy.get('kind') in NO_VERDICT:
             ck.stat('comp.model_' + hy['kind'])
+        if 'legal' in hy and hy.get('compile_ok') is not None and hy['legal'] != hy['compile_ok'] and \
+                hy.get('kind') not in NO_VERDICT:
+            # an instance of compile_ok_iff_legal that fails contradicts the theorem
+            ck.disagree('comp.theorem_instances', {'what': 'compile_ok_iff_legal'}, hy.get('compile_ok'), hy)
+    hyps = iter(hyps)
     out = []
     for files, origin, asts, req, flags in prepared:
         if req is None:
             out.append(None)
             continue
-        out.append(judge_case(ck, files, origin, asts, next(replies), flags=flags))
+        reply = next(replies)
+        if legal_report:
+            # property C01: only the verdict is judged here (the Api comparison and its oracles are C02's)
+            st = faithful.compile_guarded(files, fast=True)
+        else:
+            st = judge_case(ck, files, origin, asts, reply, flags=flags)
+        judge_legal(ck, files, origin, next(hyps), st, flags=flags, report=legal_report)
+        out.append(st)
     return out
 
 
@@ -735,9 +783,9 @@ SEEDS = [
 ]
 
 
-def suite_seeds(ck):
+def suite_seeds(ck, legal_report=False):
     batch = [(files, 'seed:' + label) for label, files, _e in SEEDS]
-    sts = run_batch(ck, batch)
+    sts = run_batch(ck, batch, legal_report)
     for (label, files, expect), st in zip(SEEDS, sts):
         if st is None:
             ck.note('comp seed %s was skipped (outside the modelled input)' % label)
@@ -756,7 +804,7 @@ def gen_model(rng, preset):
     return sg.gen_model(rng, {'base': preset, 'name': preset, 'p_patch': 0.0})
 
 
-def suite_generated(ck, n_models):
+def suite_generated(ck, n_models, legal_report=False):
     from harness import specgen as sg
     rng = ck.rng
     batch = []
@@ -765,10 +813,10 @@ def suite_generated(ck, n_models):
             m = gen_model(rng, preset)
             batch.append((sg.render(m, None), preset + '/reference'))
             batch.append((sg.render(m, sg.gen_layout(rng, m)), preset + '/layout'))
-    run_batch(ck, batch)
+    run_batch(ck, batch, legal_report)
 
 
-def suite_injected(ck, n_models, per_rule):
+def suite_injected(ck, n_models, per_rule, legal_report=False):
     """one-violation-per-rule specs of harness/inject.py (C01's injectors, used read-only)"""
     from harness import specgen as sg, inject
     rng = ck.rng
@@ -792,10 +840,10 @@ def suite_injected(ck, n_models, per_rule):
                     batch.append(([tuple(f) for f in files], 'inject:' + r.id))
             except Exception:       # noqa: BLE001 -- an injector that does not apply to this model
                 ck.stat('comp.injector_error')
-    run_batch(ck, batch)
+    run_batch(ck, batch, legal_report)
 
 
-def suite_mutants(ck, n_models, n_mut):
+def suite_mutants(ck, n_models, n_mut, legal_report=False):
     """accepted / refused outputs of the C03 text mutators"""
     from harness import specgen as sg
     from harness.suites import fe_fuzz
@@ -810,14 +858,16 @@ def suite_mutants(ck, n_models, n_mut):
             f2[k][1] = fe_fuzz.mutate_text(rng, f2[k][1], other)
             if f2[k][1] != files[k][1]:
                 batch.append(([tuple(f) for f in f2], 'mutant'))
-    run_batch(ck, batch)
+    run_batch(ck, batch, legal_report)
 
 
-def suite_compile(ck):
-    suite_seeds(ck)
-    suite_generated(ck, ck.scale(25, 250))
-    suite_injected(ck, ck.scale(3, 25), ck.scale(1, 2))
-    suite_mutants(ck, ck.scale(20, 200), ck.scale(6, 12))
+def suite_compile(ck, legal_report=False):
+    """`legal_report` (property C01): a disagreement between `Legal` and the real compiler's verdict is reported as a
+    failing input of the property"""
+    suite_seeds(ck, legal_report)
+    suite_generated(ck, ck.scale(25, 250), legal_report)
+    suite_injected(ck, ck.scale(3, 25), ck.scale(1, 2), legal_report)
+    suite_mutants(ck, ck.scale(20, 200), ck.scale(6, 12), legal_report)
 
 
 # ------------------------------------------------------------------------------------------------ replay
